@@ -623,7 +623,13 @@ func c17DelayFromAt(c *Ctx) {
 			if !ok || cl.Common().StaticCallee() != add || len(cl.Common().Args) < 5 {
 				return
 			}
-			for _, d := range deepDefs(cl.Common().Args[4], []*ssa.Function{f}) {
+			scope := []*ssa.Function{f}
+			for _, g := range c.P.FuncsIn("cmd/mcrew") {
+				if g != f {
+					scope = append(scope, g)
+				}
+			}
+			for _, d := range deepDefs(cl.Common().Args[4], scope) {
 				dc, isC := d.(*ssa.Call)
 				if !isC {
 					continue
